@@ -796,8 +796,10 @@ Proof.
   unfold request_frame. intros H. inv_obind H as mb Emb. destruct mb as [mt body]. inv_obind H as h Eh.
   inversion H; subst; clear H. exists mt, body. split; [exact Emb|].
   apply request_header_some in Eh as (cb & _ & -> & _ & Ht & _ & _). split; [|exact Ht].
-  unfold wheader. rewrite <- !app_assoc.
-  rewrite (app_assoc (be 2 0)), (app_assoc (be 2 mt)), (app_assoc (be 4 _)).
+  unfold wheader. set (sz := 10 + len cb + len body).
+  replace ((be 4 sz ++ be 2 mt ++ be 2 0 ++ be 4 tag ++ be 2 (len cb) ++ cb) ++ body)
+    with ((be 4 sz ++ be 2 mt ++ be 2 0) ++ be 4 tag ++ be 2 (len cb) ++ cb ++ body)
+    by (rewrite <- !app_assoc; reflexivity).
   rewrite skipn_app_exact by (rewrite !app_length, !be_length; reflexivity).
   apply firstn_app_exact. now rewrite be_length.
 Qed.
